@@ -8,6 +8,11 @@ class FormatError(Exception):
     pass
 
 
+class Unsupported(FormatError):
+    """A construct which may be valid in the format but is outside the subset this reader interprets
+    (a limitation of the reader: reported as harness problem, never as a violation)."""
+
+
 # ---------------------------------------------------------------- PNG
 def read_png(data):
     """Returns (width, height, pixels) with pixels[y][x] = (r, g, b, a); info dict."""
@@ -34,8 +39,10 @@ def read_png(data):
     if len(chunks[0][1]) != 13:
         raise FormatError('IHDR length')
     w, h, depth, ctype, comp, flt, inter = struct.unpack('>2I5B', chunks[0][1])
-    if comp or flt or inter:
-        raise FormatError('unsupported compression/filter/interlace')
+    if comp or flt:
+        raise FormatError('invalid compression / filter method')
+    if inter:
+        raise Unsupported('interlaced PNG')
     if w == 0 or h == 0:
         raise FormatError('zero dimension')
     allowed = {0: (1, 2, 4, 8, 16), 2: (8, 16), 3: (1, 2, 4, 8), 4: (8, 16), 6: (8, 16)}
@@ -363,7 +370,7 @@ def read_xpm(text):
     except ValueError:
         raise FormatError('XPM values')
     if cpp != 1:
-        raise FormatError('XPM cpp != 1 unsupported')
+        raise Unsupported('XPM cpp != 1 unsupported')
     colors = {}
     for s in strs[1:1 + ncol]:
         mm = re.fullmatch(r'(.)\s+c\s+(\S+)', s)
